@@ -404,6 +404,9 @@ def run_case(sh, s, d, case):
                     v._p_activate()
                     out.append(('xdb', v._p_oid, v._p_jar.db().database_name,
                                 v.__Broken_state__['payload'] if isinstance(v, Broken) else v.payload))
+                elif cb.get(v._p_oid) is not v:
+                    # identity: following an edge leads to the connection's single object for that oid
+                    out.append(('strong-but-not-the-object-the-connection-returns-for-that-oid', v._p_oid))
                 else:
                     out.append(('strong', v._p_oid))
             elif isinstance(v, (list, tuple, set, frozenset)):
@@ -446,6 +449,18 @@ def run_case(sh, s, d, case):
         return True
     if not iso(''):
         return None
+    # ---- the same connection after ZODB.Connection.resetCaches() and a trip through the pool: its reader, its new ghosts and
+    # Connection.get() must all use the one new cache (the objects of the old cache are still in memory at that time)
+    if random.Random(s + 11).random() < 0.5:
+        import ZODB.Connection
+        tmb.abort()
+        cb.close()
+        ZODB.Connection.resetCaches()
+        cb = db.open(tmb)
+        tmb.begin()
+        sh.count('isomorphism_checks_after_resetCaches')
+        if not iso(':after-resetCaches'):
+            return None
     # ---- export / import: records are copied with every reference rewritten to a fresh oid
     if nonstrong == 0 and not drop_class:
         import io
